@@ -72,7 +72,9 @@ def build_corpus(tier, seed):
     plan = {"small": (sv, [gen_c14.stars(n) for n in range(1, nex + 2)], 9, None, 0),
             "corner": (xv, gen_c14.CORNER_SHAPES, 9, None, 0),
             "S6": (xv, [gen_c14.stars(5), gen_c14.stars(6)], 9, (500 if quick else 6000, 7), 2),
-            "Lone": (lv, gen_c14.LONG_ONE, 16, None, 0)}
+            "Lone": (lv, gen_c14.LONG_ONE, 16, None, 0),
+            # instructions reaching 8..16 deep around stores and split instructions (operand indices across s(9)/s(10))
+            "deep": (gen.deep_vocab(), [gen_c14.stars(2), gen_c14.stars(3)], 17, None, 0)}
     if quick:
         plan["Lmulti"] = (lv, gen_c14.LONG_TWO + gen_c14.LONG_MIX, 16, (2000, 11), 4)
     else:
@@ -92,6 +94,8 @@ def build_corpus(tier, seed):
     stats["Xcorner_space"] = len(got["corner"])
     groups["Xcorner"] = stride(got["corner"], 800 if quick else 9000, seed + 1)
     groups["S6"] = got["S6"]
+    groups["Xdeep"] = [t for t in got["deep"] if gen_c14.length(t) <= 2] + \
+        stride([t for t in got["deep"] if gen_c14.length(t) > 2], 400 if quick else 6000, seed + 7)
     one = window(got["Lone"])
     stats["Lone_space"] = len(one)
     groups["Lone"] = stride(one, 360 if quick else None, seed + 3)
